@@ -814,8 +814,10 @@ def generate(ctx):
     for c in [c for c in cases if c["obs"] and not c["spec"].get("dtype")][:3]:
         ctx.sample({"spec": c["spec"], "error_df_rows": (c["obs"]["summary"] or {}).get("df_chain", [])[:4]}, limit=3)
     ctx.tested_not_proved += [
-        "to_arviz_inference_data (with / without warmup) holds arrays equal to the stored samples (ArviZ, xarray trusted)",
-        "pkl_save / pkl_load round trip preserves samples and error logs (pickle trusted)",
+        "to_arviz_inference_data (with / without warmup) holds arrays equal to the stored samples (ArviZ, xarray trusted); "
+        "also on samples a float32 cannot hold: float64 positions (jax x64 enabled for those runs) and int32 positions above "
+        "2**24, values exact and dtype identical or a lossless widening (strata dtype/*)",
+        "pkl_save / pkl_load round trip preserves samples (values and dtype, incl. the wide-dtype runs) and error logs (pickle trusted)",
         "jit / vmap / scan of the engine, numpy boolean-mask indexing, np.unique, pandas explode / melt / groupby / sort_index "
         "(modelled by list functions; tied to the code only by the correspondence shards)",
         "relative frequencies are compared within 1e-5 (the implementation computes them in float32)",
